@@ -839,3 +839,88 @@ spec fn sub_seen(d: DFA, tab: Map<DFAId, usize>, id: InpId) -> bool {
 verus! {
 spec fn r_has(tab: Map<DFAId, usize>, k: DFAId) -> bool { tab.contains_key(k) }
 } // verus!
+verus! {
+
+/// the (text, description) pair of a literal symbol
+spec fn lit_key_of(x: Inp) -> Option<(Ustr, Option<Ustr>)> {
+    match x { Inp::Literal { literal, description, .. } => Some((literal, description)), _ => None }
+}
+
+/// t is the pair of a literal symbol among the first n of the pool
+spec fn from_pool(pool: Seq<Inp>, n: int, t: (Ustr, Option<Ustr>)) -> bool {
+    exists|i: int| 0 <= i < n && i < pool.len() && lit_key_of(#[trigger] pool[i]) == Some(t)
+}
+
+/// l holds exactly the pairs of the literal symbols among the first n of the pool
+spec fn lits_of_pool(pool: Seq<Inp>, n: int, l: Seq<(Ustr, Option<Ustr>)>) -> bool {
+    (forall|i: int| 0 <= i < n && i < pool.len() && lit_key_of(#[trigger] pool[i]) is Some ==> l.contains(lit_key_of(pool[i])->0))
+    && (forall|j: int| 0 <= j < l.len() ==> from_pool(pool, n, #[trigger] l[j]))
+}
+
+/// one symbol of the pool handled: l1 is l0, or l0 with the symbol's pair appended when it was not there
+proof fn lemma_lits_step(pool: Seq<Inp>, n: int, l0: Seq<(Ustr, Option<Ustr>)>, l1: Seq<(Ustr, Option<Ustr>)>)
+    requires
+        lits_of_pool(pool, n, l0), 0 <= n < pool.len(),
+        lit_key_of(pool[n]) is None ==> l1 == l0,
+        lit_key_of(pool[n]) is Some ==> (has_key(l0, lit_key_of(pool[n])->0) ==> l1 == l0) && (!has_key(l0, lit_key_of(pool[n])->0) ==> l1 == l0.push(lit_key_of(pool[n])->0)),
+    ensures lits_of_pool(pool, n + 1, l1)
+{
+    assert forall|j: int| 0 <= j < l0.len() implies from_pool(pool, n + 1, #[trigger] l0[j]) by {
+        assert(from_pool(pool, n, l0[j]));
+        let i = choose|i: int| 0 <= i < n && i < pool.len() && lit_key_of(#[trigger] pool[i]) == Some(l0[j]);
+        assert(lit_key_of(pool[i]) == Some(l0[j]));
+    }
+    if lit_key_of(pool[n]) is Some {
+        let t = lit_key_of(pool[n])->0;
+        assert(from_pool(pool, n + 1, t));
+        assert(has_key(l0, t) == l0.contains(t)) by {
+            if has_key(l0, t) { let i = choose|i: int| 0 <= i < l0.len() && key_eq(#[trigger] l0[i], t); axiom_litkey_eq(l0[i], t); }
+            if l0.contains(t) { let i = choose|i: int| 0 <= i < l0.len() && l0[i] == t; axiom_litkey_eq(l0[i], t); assert(key_eq(l0[i], t)); }
+        }
+        assert forall|i: int| 0 <= i < n + 1 && i < pool.len() && lit_key_of(#[trigger] pool[i]) is Some implies l1.contains(lit_key_of(pool[i])->0) by {
+            if i < n {
+                assert(l0.contains(lit_key_of(pool[i])->0));
+                let j = choose|j: int| 0 <= j < l0.len() && l0[j] == lit_key_of(pool[i])->0;
+                assert(l1[j] == l0[j]);
+            } else if l0.contains(t) {
+                let j = choose|j: int| 0 <= j < l0.len() && l0[j] == t;
+                assert(l1[j] == t);
+            } else { assert(l1[l0.len() as int] == t); }
+        }
+        assert forall|j: int| 0 <= j < l1.len() implies from_pool(pool, n + 1, #[trigger] l1[j]) by {
+            if j < l0.len() { assert(l1[j] == l0[j]); }
+        }
+    }
+}
+
+/// sorting and reversing keep the list a list of the same pairs, now longest first
+proof fn lemma_lits_perm(pool: Seq<Inp>, l0: Seq<(Ustr, Option<Ustr>)>, l1: Seq<(Ustr, Option<Ustr>)>, l2: Seq<(Ustr, Option<Ustr>)>)
+    requires
+        lits_of_pool(pool, pool.len() as int, l0),
+        l1.len() == l0.len(), forall|t: (Ustr, Option<Ustr>)| l1.contains(t) <==> l0.contains(t),
+        forall|i: int, j: int| 0 <= i < j < l1.len() ==> ustr_blen((#[trigger] l1[i]).0) <= ustr_blen((#[trigger] l1[j]).0),
+        l2 == l1.reverse(),
+    ensures
+        lits_of_pool(pool, pool.len() as int, l2), l2.len() == l0.len(),
+        forall|i: int, j: int| 0 <= i < j < l2.len() ==> ustr_blen((#[trigger] l2[i]).0) >= ustr_blen((#[trigger] l2[j]).0),
+{
+    let n = l1.len() as int;
+    assert forall|t: (Ustr, Option<Ustr>)| l2.contains(t) <==> l1.contains(t) by {
+        if l2.contains(t) { let j = choose|j: int| 0 <= j < l2.len() && l2[j] == t; assert(l1[n - 1 - j] == t); }
+        if l1.contains(t) { let j = choose|j: int| 0 <= j < l1.len() && l1[j] == t; assert(l2[n - 1 - j] == t); }
+    }
+    assert forall|i: int| 0 <= i < pool.len() && lit_key_of(#[trigger] pool[i]) is Some implies l2.contains(lit_key_of(pool[i])->0) by {
+        assert(l0.contains(lit_key_of(pool[i])->0));
+    }
+    assert forall|j: int| 0 <= j < l2.len() implies from_pool(pool, pool.len() as int, #[trigger] l2[j]) by {
+        assert(l2.contains(l2[j]));
+        assert(l0.contains(l2[j]));
+        let k = choose|k: int| 0 <= k < l0.len() && l0[k] == l2[j];
+        assert(from_pool(pool, pool.len() as int, l0[k]));
+    }
+    assert forall|i: int, j: int| 0 <= i < j < l2.len() implies ustr_blen((#[trigger] l2[i]).0) >= ustr_blen((#[trigger] l2[j]).0) by {
+        assert(l2[i] == l1[n - 1 - i] && l2[j] == l1[n - 1 - j]);
+    }
+}
+
+} // verus!
